@@ -314,12 +314,13 @@ def same_name_functions():
 
 
 def gen_unit(u):
-    ops, Rk, k = u
-    return [c.to_json() for c in gen.corpus(ops, Rk, k, ("distinct", "all2", "unit0", "unit1"))]
+    ops, Rk, k, sizesets = u
+    return [c.to_json() for c in gen.corpus(ops, Rk, k, sizesets)]
 
 
-QUICK = [(["sum"], 3, 1), (["add"], 2, 0), (["add"], 1, 1), (["where"], 1, 1)]
-THOROUGH = [(["sum"], 3, 2), (["add"], 2, 1), (["add"], 3, 0), (["where"], 2, 1)]
+DA = ("distinct", "all2"); UN = ("unit0", "unit1", "unit2")
+QUICK = [(["sum"], 3, 1, DA), (["sum"], 3, 0, UN), (["sum"], 2, 1, UN), (["add"], 2, 0, DA), (["add"], 1, 1, DA), (["where"], 1, 1, DA)]
+THOROUGH = [(["sum"], 3, 2, DA), (["sum"], 3, 1, UN), (["add"], 2, 1, DA + UN[:2]), (["add"], 3, 0, DA), (["where"], 2, 1, DA)]
 
 
 def run(ctx):
@@ -327,7 +328,7 @@ def run(ctx):
     if refsem_selftest.run(): raise RuntimeError("RefSem self-test failed")
     plan = QUICK if ctx.tier == "quick" else THOROUGH
     items = []; seen = set()
-    for lst in runner.pmap(gen_unit, [([op], Rk, k) for ops, Rk, k in plan for op in ops], chunksize=1):
+    for lst in runner.pmap(gen_unit, [([op], Rk, k, ss) for ops, Rk, k, ss in plan for op in ops], chunksize=1):
         for j in lst:
             key = (j["op"], j["desc"], json.dumps(j["shapes"]))
             if key not in seen: seen.add(key); items.append(j)
